@@ -20,6 +20,16 @@ CHECKS = {
    text="Exhaustive within bounds at index level: every valid filter x every topic of <=3 (quick) / <=4 (thorough) levels over {a,b,''} plus wildcards, on subscriptions.Tree.Walk and SubscriptionsState.ByPattern; all ordered filter pairs at 2 levels; all TLC-generated subscribe/unsubscribe/re-subscribe histories of depth 3-4 over prefix-related filters; seeded random filter sets beyond. Every answer must equal {active subscriptions whose filter Matches the topic}, each once.",
    note="Trusts TLC, the Json module; strings are built by joining level sequences (ground truth). Invalid filters excluded.",
    design="5 C01, 4.1"),
+ "C19": dict(
+   technique="TLA+ spec TopicStore model-checked with TLC; TLC-generated operation sequences executed on both real tries; lookups/Count/Iterate after every step validated against the map by TLC (trace validation)",
+   text="Exhaustive within bounds: every sequence of 4 (quick) / 5 (thorough) operations - write (insert or replace), remove, dump, load-last-dump over 5 keys - plus simulated sequences of depth 8-10, on topics.Store and subscriptions.Tree, with prefix-related, empty-level and deep key sets; after every operation all exact-key lookups, Count and Iterate (as a multiset) must equal the map TopicStore.tla; no operation may panic.",
+   note="Trusts TLC and the Json module. Return values of Insert/Remove are not constrained (not part of C19).",
+   design="5 C19, 4.1"),
+ "C07": dict(
+   technique="TLA+ specs Retained/Topics model-checked with TLC; TLC-generated retained-publish histories and the exhaustive filter domain executed on the real TopicsState (origin and replica); every Get validated by TLC against Replay (trace validation)",
+   text="Exhaustive within bounds at store level: every history of 3 (quick) / 4 (thorough) retained publishes (set, replace, clear) over 5 prefix-related topics probed with 12 filters after each step on the origin and on a replica fed by the origin's broadcasts; every topic of the <=3-level domain x every filter; full and half-cleared stores x every filter; seeded random histories. Every answer must be exactly the most recent non-empty payload of every matching topic, once, flagged retained.",
+   note="Trusts TLC and the Json module; in-order complete gossip delivery to the replica (faults are C08-C10).",
+   design="5 C07, 4.9"),
 }
 
 def main():
